@@ -12,900 +12,1020 @@ Definition show_fres (r : fres) : string :=
   end.
 Definition check (rs : list rune) : string := digest (show_fres (format_res rs)).
 Definition full (rs : list rune) : string := show_fres (format_res rs).
-Eval vm_compute in ("<<<M1713>>>" ++ check (runes_of_ascii "packet a1 {
-    @rightPad(' ')
-    @tag(255)
-    @lengthOf(zchar)
-    string MetaDataX @calculatedFrom(""CRC32"") `crlf
-    line`,
-    u8 A @lengthOf(charz),
-    body,
-    @rightPad('0')
-    @lengthOf(charz)
-    match repeatCount as Z9_ {
-        0123456789 : metadata,
-        """ ++ [233]%N ++ runes_of_ascii "t" ++ [233]%N ++ runes_of_ascii """ : float,
+Eval vm_compute in ("<<<M1909>>>" ++ check (runes_of_ascii "
+
+  options
+{ MetaDataX  =
         // packet A { u8 x, }
-        ""1"" : Logon,
-        // " ++ [27880; 37322]%N ++ runes_of_ascii "
-    },
-    x_y_z `" ++ [233]%N ++ runes_of_ascii "`,
-    @calculatedFrom(""1"")
-    match Header as body {
-        4294967296 : MetaDataX,
-        ""abc"" : packetx,
-    },
-    x_y_z @calculatedFrom(""\" ++ [233]%N ++ runes_of_ascii """),
-    i64_ @calculatedFrom(""abc"") `
-    `,
-    @rightPad()
-    //	t
-    char float @lengthOf(trueish),
-    @tag(42)
-    @leftPad('\x00')
-    @calculatedFrom(""\n"")
-    repeat string tag,//x
-}
-
-packet tag {
-    repeat T u `
-    `,
-    string u128 @calculatedFrom(""packet"") `u8 x,`,
-    // trailing space 
-    //x
-    repeat f64 stringy `" ++ [233]%N ++ runes_of_ascii "`,
-    u32 leftPad @lengthOf(float),
-    uint32 i8i8 @lengthOf(f32a),
-    int @calculatedFrom(""" ++ [233]%N ++ runes_of_ascii "t" ++ [233]%N ++ runes_of_ascii """),
-    @calculatedFrom(""\n"")
-    @leftPad('\x00')
-    @rightPad()
-    repeat pack `// not a comment`,
-    @calculatedFrom(""1"")
-    char[] string_,
-    f64 calculatedFrom @lengthOf(pack) `tab	here`,
-    @tag(00)
-    int8 tag,
-}
-
-options {
-    f32a = ""a	b""
-    _x = false;
-    _x = '0'
-    o = false/// triple
-}
-
-packet falsey {
-    @tag(007)
-    string falsey,
-    i64_ @lengthOf(crc),
-    repeat u128 body,
-    char[00] roots,/// triple
-    metadata @lengthOf(packetx) `
-    `,// trailing space 
-    string_ BodyLength,
-    @calculatedFrom(""it's"")
-    repeat matchKey,
-    metadata @calculatedFrom(""abc""),
-    @tag(255)
-    repeat Pad {
-        char[] packetx,
-        repeat o {
-            int16 charz,
-            packetx {
-                i8 zchar,
-            },
-            char[10] x,
-            repeat zchar[0123456789] pack,// c
-        },
-        int,
-        i8 asx,
-    },
-}
-
-packet leftPad {
-    @tag(255)
-    repeat uint16 msg_type,
-    // c
-    f32 trueish @calculatedFrom("""") `two words`,
-    @leftPad('\x00')
-    @lengthOf(leftPad)
-    @lengthOf(asx)
-    //	t
-    zchar[1] roots @calculatedFrom(""abc""),
-    pack @lengthOf(Z9_),
-    @tag(65535)
-    @lengthOf(Header)
-    // c
-    f64 tag,
-    @tag(1)
-    repeat u8x,
-    match stringy as x {
-        ""it's"" : Z9_,
-        7 : u128,
-        ""// no comment"" : trueish,
-        00 : f32a,
-        [3, 1, 00] : pack,
-        """ ++ [28040; 24687]%N ++ runes_of_ascii """ : options1,
-    },
-    repeat u128 {
-        repeat crc {
-            int16 int,
-        },
-    },
-    @leftPad(' ')
-    // trailing space 
-    repeat zchar[255] int `crlf
-    line`,
-    @tag(1)
-    Logon roots `// not a comment`,
-}")).
-Eval vm_compute in ("<<<M1525>>>" ++ check (runes_of_ascii "packet	asx{leftPad
-	@calculatedFrom(
-    """ ++ [233]%N ++ runes_of_ascii "t" ++ [233]%N ++ runes_of_ascii """
-	)
-	,	@leftPad	( '0'
-
-    ) 
-	// trailing space 
-  u8x 
-As`crlf
-line`	, char[ 
-3 ]
-asx @calculatedFrom( ""{,}"" ) , 
-// @lengthOf(
-	// trailing space 
-
-repeat
-	u128
-
-{
-
-int
-{ packetx	@calculatedFrom(
-""packet""
-
-)
-    ,
-match
-
-    T
-	as	T
-
-{
-    ""a	b"" :
-o
-
-    , }
-,
-zchar[00	] lengthOf
-	`{ , }`
-
-,
-    /// triple
-
-// trailing space 
-    char[]
-
-crc@calculatedFrom( ""abc""  )  , }
-,
-
-Header
-    @calculatedFrom( 
-""" ++ [233]%N ++ runes_of_ascii "t" ++ [233]%N ++ runes_of_ascii """ )
-`two words`,
-    repeat
-	uint8 
-uint8x
-,
-	repeat
-    //
-	char[
-0123456789 ]
-	float `u8 x,` ,}  ,packetx
-    x 
-`say ""hi""` ,
-@rightPad (
-)
-
-    i8i8
-@calculatedFrom(
-
-""x y""  ) , 
-@leftPad() 
-BodyLength
-	{ 
-repeat int32 _x
-	``, i8
-
-    msg_type
-    `doc`//
-,}
-    ,
-}
-// `tick` ""quote"" 'q'
-  // packet A { u8 x, }
-    packet  body
-    { }
-	packet
-
-repeatCount {	zchar[
-    3
-] Packet,
-@lengthOf( 	 // @lengthOf(
-	Header
-)i64
-
-// c
-// c
-Packet
-
-    `two words`
-	,  zchar[
-
-    65535
-	] calculatedFrom
-`tab	here`	//	t
-
-	,
-match	x
-
-as	leftPad
-	{ ""// no comment""
-
-: rootA	,
-""`tick`""
-: 
-o
-    ,
-} ,  // " ++ [128512]%N ++ runes_of_ascii " emoji
-    	zchar[//	t
-
-3]
-    // packet A { u8 x, }
-	// " ++ [27880; 37322]%N ++ runes_of_ascii "
-u128 @calculatedFrom(  ""{,}"" ) 
-`{ , }` ,} 
-	    //	t
-options
-
-{u	=
-
-    char[
-42
-
-    ] // " ++ [27880; 37322]%N ++ runes_of_ascii "
-  metadata =""a\\""
-
-;
-Logon
-= string
-	; Z9_
-=  u16
-
-;  } ")).
-Eval vm_compute in ("<<<M359>>>" ++ check (runes_of_ascii "root	packet // @lengthOf(
-repeatCount {
-    @lengthOf(u8x
-) @calculatedFrom(""1"" ) @tag( 007 ) repeat zchar[
-42 ] Header
-    `" ++ [28040; 24687; 31867; 22411]%N ++ runes_of_ascii "` , match options1 as asx
-{ 255
     // `tick` ""quote"" 'q'
-    :
-    roots , }, // a // b
-Header
-    @lengthOf(
-    // a // b
-    options1	) `` , Header //	t
-@lengthOf(
-    len )`{ , }`
-, o matchKey `u8 x,` ,} packet packetx {zchar[
-255
-]
-crc
-    , }
-    packet
-    Logon {
-    body { float { repeat Logon  trueish ,  } , } ,	@calculatedFrom(
-    // `tick` ""quote"" 'q'
-    ""`tick`"" ) repeat char[
-    0] f32a
-,match body
-    as
-    float {[65535
-, """ ++ [28040; 24687]%N ++ runes_of_ascii """
-    ] :
-calculatedFrom ,}
-, u32 float@calculatedFrom(
-    """ ++ [233]%N ++ runes_of_ascii "t" ++ [233]%N ++ runes_of_ascii """ // @lengthOf(
-)
-, string body @lengthOf( len
-    )`
-` //
-, u8x
-@calculatedFrom( ""a\""b"")
-    //	t
-    , //	t
-float64 options1@calculatedFrom(""" ++ [128512]%N ++ runes_of_ascii """ )`it's`
-    ,
-//x
-// trailing space 
-match crc as chars
-    {
-3
-: options1 // @lengthOf(
-, [ 10 ] :_x  [ ""{,}""
-] :options1
-,[ ""CRC32"", ""a\\""  ,
-""a\\"" , ""packet"", 7
-    // `tick` ""quote"" 'q'
-    ]
-:
-As
-    } , i16 msg_type , }")).
-Eval vm_compute in ("<<<M1368>>>" ++ check (runes_of_ascii "// top
-options
-    // c0
-{ // c1
-LittleEndian =
-    // c3
 true
-    // c4
-; // c5a
-  // c5b
-} // c6
-packet // c7a
-  // c7b
-Logon // c8a
-  // c8b
-{ u8
-    // c10
-x // c11a
-  // c11b
-, // c12
-} // c13a
-  // c13b
-packet // c14a
-  // c14b
-Logout // c15
-{
-    // c16
-u16
-    // c17
-reason
-    // c18
-, // c19a
-  // c19b
-}
-    // c20
-root packet Frame { // c24
-u16 // c25a
-  // c25b
-Kind // c26
-, // c27a
-  // c27b
-u16
-    // c28
-Kind2 // c29a
-  // c29b
-, match Kind
-    // c32
-as // c33
-Body // c34
-{
-    // c35
-1 : // c37
-Logon // c38a
-  // c38b
+}  root 
+  // `tick` ""quote"" 'q'
+	  /// triple
+
+  packet
+	u8x{
+repeat  uint16 u8x
+`" ++ [28040; 24687; 31867; 22411]%N ++ runes_of_ascii "`
+
 ,
-    // c39
-[ // c40
-2 , // c42
-3
-    // c43
-, // c44
-4 ] :
-    // c47
-Logout
-    // c48
-, // c49
-100
-    // c50
-:
-    // c51
-Logon // c52a
-  // c52b
+@tag( 	 //
+
+	42 
+    // " ++ [128512]%N ++ runes_of_ascii " emoji
+	  /// triple
+  	)
+	char[  /// triple
+	7]
+	trueish 
+@lengthOf( 
+	// " ++ [27880; 37322]%N ++ runes_of_ascii "
+    Pad )  ,
+
+tag	@lengthOf( 
+A
+)
+
+`say ""hi""` , float
+	rootA , 	 // " ++ [27880; 37322]%N ++ runes_of_ascii "
+    	Foo ,
+	repeat uint32
+
+    calculatedFrom,
+    }root
+    packet
+u128{ 
+repeat
+
+    Packet 
+metadata
+    , repeat
+
+    zchar[
+0123456789
+]
+    len `u8 x,`
+, f32
+BodyLength 
+@lengthOf(Z9_
+)
+
+    `it's`
+    , match 
+crc 
+as  Packet {	0 
+
+//x
+  //x
+  	:	i64_,	[ 
+255]
+
+    :  rootA ,[ ""a	b"" ,	""\" ++ [233]%N ++ runes_of_ascii """
+    ,""\" ++ [233]%N ++ runes_of_ascii """
+,  // `tick` ""quote"" 'q'
+    0	/// triple
+    	,
+
+4294967296 ]  :	i8i8 
 ,
-    // c53
-} , match Kind2 // c57a
-  // c57b
-as
-    // c58
-Trailer // c59
-{ // c60
-0 // c61a
-  // c61b
-: // c62
-Logout // c63a
-  // c63b
+	} 
 ,
-    // c64
-} // c65a
-  // c65b
+	@tag(1
+) @calculatedFrom( ""\" ++ [233]%N ++ runes_of_ascii """ )
+
+    string f32a
+    @calculatedFrom( 
+""abc"" 
+)  ,repeat  As {matchKey
+
+{crc
+
+    /// triple
+  @calculatedFrom(
+""// no comment""	//x
+
+	),
+    } 
 ,
-    // c66
-} // c67
-")).
-Eval vm_compute in ("<<<M1840>>>" ++ check (runes_of_ascii "
+lengthOf//
+
+	`crlf
+line`
+	    // packet A { u8 x, }
+, 
+
+    // a // b
+// a // b
+    T	//
+  	Pad  `a\`
+	,
+    repeat i8i8
+
+    charz  ,// a // b
+    	}
+,
+
+    } 
 packet
 
-float
-{
-char[]
-	u8x  @lengthOf( roots
+    packetx
+
+    {
+
+@lengthOf(  Packet)
+repeat
+uint8x
+	    //
+
+  // " ++ [128512]%N ++ runes_of_ascii " emoji
+  `line1
+line2`
+    ,  @tag(	0123456789
 	)
+	string	BodyLength
+	@calculatedFrom(
+""" ++ [28040; 24687]%N ++ runes_of_ascii """)
+    ,	// trailing space 
 
-    ,
-	}	MetaData	leftPad {	string
-	// `tick` ""quote"" 'q'
-    a1
-    ,}	root
-packet// " ++ [27880; 37322]%N ++ runes_of_ascii "
-pack 
-{	falsey	, 
+zchar[
+    42
+    ]
+MetaDataX 
+      //
+  ,  char  A
+    @lengthOf(
 /// triple
-	match
-Logon as  // " ++ [128512]%N ++ runes_of_ascii " emoji
-    trueish{ ""packet""
-    :
 
-    Foo , 
-""""
-: 
-len ,
+	tag	) `two words`
+	,
+@tag(10) @calculatedFrom(
 
-0123456789
-	:
+""" ++ [28040; 24687]%N ++ runes_of_ascii """ 
+    // `tick` ""quote"" 'q'
+//x
+)  @calculatedFrom(
+""x y"") char[ 
+7	]
+	repeatCount@calculatedFrom(
+""// no comment""
 
-    i64_  ,
-    ""it's"" :
-	packetx
-
-,
-    255 :  len 
-,
-
-}
-,
-repeat
-
-As 
-As `" ++ [233]%N ++ runes_of_ascii "`
-,@tag(  3)uint32 a1,
-repeat
-    zchar[
-
-    4294967296
+) , @calculatedFrom(	""it's""
+    ) char[
+65535
 	]
-	pack
-	, 
-@leftPad(
-
-    ' '	)
-	zchar
-	@lengthOf( string_ )
+packetx 
 `// not a comment`
 
-,
+    , @leftPad 	 //	t
+(
 
-    repeat
-int ,repeat 
-i8i8  // " ++ [27880; 37322]%N ++ runes_of_ascii "
-{ u64
+' '
 
-// a // b
-	tag
-`say ""hi""`
-,
-    u8x ,
-    char	trueish ,
-repeat  // packet A { u8 x, }
-  float32 stringy	`line1
-line2`
+)match 
+tag
+as  packetx
 
-    , },	match
-o
-as
-	o	{	007
-    :
-    float	}
-	, 
-        // packet A { u8 x, }
-	// c
-  	repeat
+    {  00
 
-Pad
-,
-	    // " ++ [27880; 37322]%N ++ runes_of_ascii "
-
-  // trailing space 
-	}")).
-Eval vm_compute in ("<<<M354>>>" ++ check (runes_of_ascii "options {
-} packet u8x{ string uint8x@calculatedFrom(""{,}"" )	`crlf
-line`	,} MetaData falsey{
-    Logon packetx `tab	here` , } root packet o
-{ falsey@calculatedFrom(
-//x
-// " ++ [27880; 37322]%N ++ runes_of_ascii "
-""" ++ [28040; 24687]%N ++ runes_of_ascii """ ) ,	@tag(0123456789) // `tick` ""quote"" 'q'
-char[
-    // `tick` ""quote"" 'q'
-    0123456789
-]	u128@calculatedFrom(
-""{,}"" ) ,
-    @tag(
-    00)
-@lengthOf( stringy
-) @tag( 4294967296
-)  rootA Header,  @lengthOf(As
+    : 
+int ,  }
+, @tag( 7 
+    //
+// " ++ [128512]%N ++ runes_of_ascii " emoji
     )
-    repeat leftPad `// not a comment`// c
-, i8 leftPad @calculatedFrom( """" ) , @tag( 10
-) zchar[ 007
-] packetx
-@lengthOf( // packet A { u8 x, }
-u8x )	`" ++ [28040; 24687; 31867; 22411]%N ++ runes_of_ascii "` ,
-}packet	options1 {
-//	t
+@lengthOf(
+// @lengthOf(
+  	float
+
+)
+    @tag(
+
+0123456789 )
+
+    Z9_
+	, 
+@tag(// c
+	00  ) 
+tag
+	{ uint16 
+MetaDataX ,  u tag
+
+`tab	here`	,float64
+	Packet
+	@calculatedFrom(""{,}""
+    )
+
+, 
+x_y_z
+
+u128
+
+,
+}  ,char[]
+
+msg_type
+
+    @lengthOf( calculatedFrom ) `line1
+line2`,
+
+    }
+MetaData // " ++ [27880; 37322]%N ++ runes_of_ascii "
+
+  float{ uint32 
+crc
+, charz msg_type
+,  u128
+crc	,string 
+stringy
+
+    `" ++ [233]%N ++ runes_of_ascii "` ,
+}
+")).
+Eval vm_compute in ("<<<M386>>>" ++ check (runes_of_ascii "options {
+    StringPrefixLenType = u16;
+    ArrayPrefixLenType = u16;
+}
+
+packet SampleBinary {
+    uint16 MsgType `" ++ [28040; 24687; 31867; 22411]%N ++ runes_of_ascii "`,
+    u16 BodyLenght @lengthOf(Body) `" ++ [28040; 24687; 20307; 38271; 24230]%N ++ runes_of_ascii "`,
+    match MsgType as Body {
+        1 : Logon,
+        2 : Logout,
+        3 : Heartbeat,
+        4 : RiskControlRequest,
+        5 : RiskControlResponse,
+    },
+    @calculatedFrom(""CRC32"")
+    u32 Ckecksum `" ++ [26657; 39564; 21644]%N ++ runes_of_ascii "`,
+}
+
+packet Logon {
+    @leftPad('0')
+    char[10] UserName `" ++ [29992; 25143; 21517]%N ++ runes_of_ascii "`,
+    string Password `" ++ [23494; 30721]%N ++ runes_of_ascii "`,
+    uint64 ClientId `" ++ [23458; 25143; 31471]%N ++ runes_of_ascii "ID`,
+    u16 HeartbeatInterval `" ++ [24515; 36339; 38388; 38548]%N ++ runes_of_ascii "`,
+}
+
+packet Logout {
+    @rightPad('0')
+    char[10] UserName `" ++ [29992; 25143; 21517]%N ++ runes_of_ascii "`,
+    uint64 ClientId `" ++ [23458; 25143; 31471]%N ++ runes_of_ascii "ID`,
+}
+
+packet Heartbeat {
+}
+
+packet RiskControlRequest {
+    string UniqueOrderId `" ++ [21807; 19968; 35746; 21333; 21495]%N ++ runes_of_ascii "`,
+    char[16] ClOrdID `" ++ [23458; 25143; 35746; 21333; 21495]%N ++ runes_of_ascii "`,
+    char[3] MarketID `" ++ [24066; 22330]%N ++ runes_of_ascii "id`,
+    char[12] SecurityID `" ++ [35777; 21048; 20195; 30721]%N ++ runes_of_ascii "`,
+    char Side `" ++ [20080; 21334; 26041; 21521]%N ++ runes_of_ascii "`,
+    char OrderType `" ++ [35746; 21333; 31867; 22411]%N ++ runes_of_ascii "`,
+    u64 Price `" ++ [20215; 26684]%N ++ runes_of_ascii "`,
+    u32 Qty `" ++ [25968; 37327]%N ++ runes_of_ascii "`,
+    repeat string ExtraInfo `" ++ [38468; 21152; 20449; 24687]%N ++ runes_of_ascii "`,
+    repeat SubOrder {
+        char[16] ClOrdID `" ++ [23376; 35746; 21333; 21495]%N ++ runes_of_ascii "`,
+        u64 Price `" ++ [23376; 35746; 21333; 20215; 26684]%N ++ runes_of_ascii "`,
+        u32 Qty `" ++ [23376; 35746; 21333; 25968; 37327]%N ++ runes_of_ascii "`,
+    },
+}
+
+packet RiskControlResponse {
+    string UniqueOrderId `" ++ [21807; 19968; 35746; 21333; 21495]%N ++ runes_of_ascii "`,
+    i32 Status `" ++ [29366; 24577]%N ++ runes_of_ascii "`,
+    string Msg `" ++ [32467; 26524; 20449; 24687]%N ++ runes_of_ascii "`,
+    repeat Detail,
+}
+
+packet Detail {
+    string RuleName `" ++ [35268; 21017; 21517; 31216]%N ++ runes_of_ascii "`,
+    u16 Code `" ++ [21407; 22240; 20195; 30721]%N ++ runes_of_ascii "`,
+}")).
+Eval vm_compute in ("<<<M331>>>" ++ check (runes_of_ascii "packet o
 // trailing space 
-falsey// packet A { u8 x, }
-{ //	t
-zchar[ 3
-    ]// " ++ [128512]%N ++ runes_of_ascii " emoji
-roots
+//x
+{	repeat pack stringy `two words`	,
+    char[	1 ]
+leftPad , }
+/// triple
+// @lengthOf(
+MetaData msg_type{ zchar[  1] Pad`" ++ [28040; 24687; 31867; 22411]%N ++ runes_of_ascii "` , uint32 //x
+charz//
+`a\`
+,  A u8x `// not a comment` ,
+    // `tick` ""quote"" 'q'
+    } packet
+options1
+    {@calculatedFrom( """ ++ [233]%N ++ runes_of_ascii "t" ++ [233]%N ++ runes_of_ascii """
+) @rightPad( )
+Pad
+@lengthOf(// packet A { u8 x, }
+pack ) `` ,
+match
+    A
+as
+    a1 { 255  :
+msg_type  ,
+}
+,
+// " ++ [27880; 37322]%N ++ runes_of_ascii "
 //
+@lengthOf( tag )  @tag( 00 )@rightPad(' '
+) match Header	as f32a { """" : float , } // @lengthOf(
+, char[] T@calculatedFrom(
+    // packet A { u8 x, }
+    ""packet""	) , repeat asx /// triple
+msg_type`crlf
+line` , @calculatedFrom( ""\" ++ [233]%N ++ runes_of_ascii """ ) @tag( // trailing space 
+7
+)
+int64 o
+`line1
+line2`,
+    // trailing space 
+    } // " ++ [128512]%N ++ runes_of_ascii " emoji
+root
+packet// packet A { u8 x, }
+crc  { int8
+body
+@lengthOf( matchKey ) `two words` ,
+    //	t
+    @lengthOf( u8x )
+zchar[
+0123456789
+    ] i8i8,
+} MetaData  a1 { falsey _x
+`
+` ,
+char[] body`" ++ [28040; 24687; 31867; 22411]%N ++ runes_of_ascii "` ,
+// packet A { u8 x, }
+//
+zchar[ 42] trueish `
+` , float trueish,  metadata //x
+o `{ , }`, }")).
+Eval vm_compute in ("<<<M1899>>>" ++ check (runes_of_ascii "options {
+    matchKey = ""x y"";
+    MetaDataX = '0';
+}
+
+packet msg_type {
+    @rightPad(' ')
+    repeat u128 body,
+    match body as pack {
+        [""\" ++ [233]%N ++ runes_of_ascii """, ""1""] : BodyLength,
+        [
+            255, 007, 007, 0123456789, ""a	b"",
+            ""a\\"", ""{,}""
+        ] : options1,
+    },
+    @leftPad()
+    @lengthOf(charz)
+    @tag(42)
+    o {
+        i32 msg_type @lengthOf(A) `doc`,
+        zchar[1] charz,// c
+        i8 packetx `{ , }`,
+        msg_type `crlf
+        line`,
+    },
+    @calculatedFrom(""\" ++ [233]%N ++ runes_of_ascii """)
+    Z9_ @calculatedFrom(""" ++ [128512]%N ++ runes_of_ascii """) `tab	here`,
+    repeat char[] Foo,
+    repeat zchar[0123456789] u128,
+}
+
+packet f32a {
+    f32a @lengthOf(matchKey),
+    @rightPad(' ')
+    @lengthOf(chars)
+    _x Foo ``,
+    match body as body {
+        [
+            4294967296, 3, 0123456789,
+            ""packet"", """ ++ [128512]%N ++ runes_of_ascii """
+        ] : T,
+        [""a\\""] : T,
+        ""\n"" : u8x,
+    },
+}//x
+
+root packet lengthOf {
+}")).
+Eval vm_compute in ("<<<M1362>>>" ++ check (runes_of_ascii "options {
+    FixedStringPadFromLeft = true;
+    FixedStringPadChar = '0';
+}
+packet Leg {
+    repeat InSym93 {
+        zchar[3] Acct,
+        string Side2,
+        i32 Flags,
+        f32 Note,
+        i32 msgKind,
+    },
+    f64 Note,
+    uint16 Px,
+}
+packet Quote {
+    zchar[2] OrderId,
+}
+packet Ack {
+    repeat string lastPx,
+    zchar[4] price,
+    uint32 OrderId,
+    Quote,
+    int8 Acct,
+}
+packet Fill {
+    repeat Leg,
+    @rightPad('0') char[11] Note,
+    f64 Px,
+    @rightPad('\x00') char[5] Flags,
+    zchar[9] x,
+    string msgKind,
+}
+root packet Order {
+    Leg,
+    repeat Ack,
+    @rightPad('\x00') char[3] Side2,
+    repeat char[1] seqNo,
+    u16 clOrdID,
+    match clOrdID as Body {
+        198 : Leg,
+        23 : Quote,
+        13 : Ack,
+        159 : Fill,
+    },
+    u32 venue @calculatedFrom(""CR\
+C32""),
+}
+")).
+Eval vm_compute in ("<<<M1924>>>" ++ check (runes_of_ascii "
+// packet A { u8 x, }
+    MetaData
+
+_x{ //
+    char[]
+
+    len ,
+
+    }
+
+options 
+    // @lengthOf(
+  //
+	  {
+repeatCount	= """";  } // c
+
+root packet
+chars{char[
+    255
+] u8x
+	, repeat 
+
+    /// triple
+
+	// c
+	string repeatCount
+	`" ++ [28040; 24687; 31867; 22411]%N ++ runes_of_ascii "`
+	, repeat zchar[	10 ]
+	string_
+    , @tag(	// trailing space 
+      255 )
+    i8i8	{// packet A { u8 x, }
+options1
+	calculatedFrom	`u8 x,` ,i64 
+len,	roots// c
+
+	{  // @lengthOf(
+	  repeat
+
 // a // b
-,
-    u32 Header // c
-,
-} ,// a // b
-}")).
-Eval vm_compute in ("<<<M1808>>>" ++ check (runes_of_ascii "packet tag {
-    @calculatedFrom(""x y"")
-    lengthOf {
-        options1 `
-        `,
-    },
-    @tag(7)
-    int {
-        //x
-        // " ++ [27880; 37322]%N ++ runes_of_ascii "
-        char[007] calculatedFrom @lengthOf(metadata),
-        tag @lengthOf(falsey),
-        f32 calculatedFrom `{ , }`,
-        i8i8 {
-            string i64_ @lengthOf(asx) `it's`,
-            u @calculatedFrom(""\n""),
-        },
-    },
-    @calculatedFrom(""abc"")
-    @leftPad(' ')
-    uint64 calculatedFrom,// " ++ [27880; 37322]%N ++ runes_of_ascii "
-}
+	i64_ zchar 	 //
+    , }
+,}
 
-packet o {
-    Header,
-    @lengthOf(i8i8)
-    float32 Pad,
-    char[42] leftPad @calculatedFrom(""""),
-    @tag(255)
-    body u,
-}
+    , 
+match 
+chars as 
+Packet{""a\""b"" :Pad  , [
+    ""{,}""]
 
-packet lengthOf {
-    @tag(255)
-    char[0123456789] o `
-    `,
-}")).
-Eval vm_compute in ("<<<M1312>>>" ++ check (runes_of_ascii "// top
-options // c0a
-  // c0b
-{ // c1a
+    : 
+calculatedFrom  // a // b
+	  , """ ++ [233]%N ++ runes_of_ascii "t" ++ [233]%N ++ runes_of_ascii """ 
+      //x
+// `tick` ""quote"" 'q'
+    :
+uint8x
+,
+[ // packet A { u8 x, }
+	""`tick`""
+
+,
+
+    0,	42
+	]	:_x
+	[0123456789,""\" ++ [233]%N ++ runes_of_ascii """
+
+    ]
+
+    : i8i8
+,
+	}
+,
+
+} ")).
+Eval vm_compute in ("<<<M1315>>>" ++ check (runes_of_ascii "// top
+packet // c0
+MDSnapshotZZ // c1a
   // c1b
-FixedStringPadChar = // c3
-'0' ; } packet
-    // c7
-Q // c8
+{ // c2
+u8 a // c4
+, // c5a
+  // c5b
+} // c6
+packet OrderACK // c8
 { // c9a
   // c9b
-zchar[ // c10a
-  // c10b
-4 // c11
-] // c12
-z , // c14
-@rightPad ( // c16
-'\x00' ) // c18a
-  // c18b
-char[ 3 // c20a
-  // c20b
-]
-    // c21
-n ,
-    // c23
-char[
-    // c24
-5
-    // c25
-] // c26
-d // c27
-, } // c29a
-  // c29b
-root
-    // c30
-packet R
-    // c32
-{ // c33
-Q , // c35a
-  // c35b
-zchar[ 8 // c37
-] // c38
-top , // c40a
-  // c40b
-repeat
-    // c41
-zchar[
-    // c42
-2
-    // c43
-] // c44a
-  // c44b
-zs
-    // c45
-, // c46a
-  // c46b
-} // c47
-")).
-Eval vm_compute in ("<<<M1115>>>" ++ check (runes_of_ascii "packet float
-    // c1
-{ // c2
-@rightPad // c3a
-  // c3b
-( // c4a
-  // c4b
-) // c5a
-  // c5b
-rootA // c6
-@lengthOf( // c7a
-  // c7b
-trueish // c8
-)
-    // c9
+u16 b // c11
 ,
-    // c10
-stringy // c11a
-  // c11b
-@lengthOf( // c12a
-  // c12b
-matchKey )
+    // c12
+} // c13a
+  // c13b
+packet
     // c14
-, // c15a
-  // c15b
-char[ 4294967296 ]
-    // c18
-pack @lengthOf(
-    // c20
-uint8x
-    // c21
-) // c22a
-  // c22b
-,
-    // c23
-} // c24
-root // c25
-packet trueish {
-    // c28
-repeat uint64
-    // c30
-u128
-    // c31
-`line1
-line2` // c32
-,
-    // c33
-}
-    // c34
-")).
-Eval vm_compute in ("<<<M133>>>" ++ check (runes_of_ascii "MetaData  falsey
-{ } root packet // `tick` ""quote"" 'q'
-o {@tag(3// " ++ [128512]%N ++ runes_of_ascii " emoji
-) @calculatedFrom( """") @lengthOf(
-    pack)char[ 65535
-    ]falsey
-    @lengthOf(falsey ) , }  root packet roots
-    {@lengthOf(
-chars )match Logon as chars{ ""`tick`"" :charz
-    // packet A { u8 x, }
-    ""a\\"" :Z9_ 007 : trueish ""CRC32"" :	msg_type , [
-3
-    ,3 // `tick` ""quote"" 'q'
-,
-00 ,4294967296 ,
-0
-,7 , //
-""x y"",""\" ++ [233]%N ++ runes_of_ascii """
-    //	t
-    ] : metadata ,""a	b""
-//x
-// " ++ [27880; 37322]%N ++ runes_of_ascii "
-:	crc } , }
-")).
-Eval vm_compute in ("<<<M1193>>>" ++ check (runes_of_ascii "// top
-MetaData
-    // c0
-uint8x // c1
-{ char[]
-    // c3
-f32a // c4a
-  // c4b
-`// not a comment`
-    // c5
-, // c6a
-  // c6b
-float32 // c7
-roots
-    // c8
-, // c9
-char[ // c10a
-  // c10b
-7 // c11
-] // c12
-u8x // c13
-, // c14a
-  // c14b
-zchar[
+HTTPServerInfo
     // c15
-10
-    // c16
-] // c17
-f32a // c18
-, // c19a
-  // c19b
-u64
-    // c20
-pack // c21a
-  // c21b
-, u16
-    // c23
-pack // c24a
-  // c24b
+{ // c16
+string s
+    // c18
 ,
-    // c25
+    // c19
 }
-    // c26
+    // c20
+root // c21a
+  // c21b
+packet // c22
+FIXMsg // c23
+{ u8 // c25a
+  // c25b
+KType // c26a
+  // c26b
+, // c27a
+  // c27b
+MDSnapshotZZ
+    // c28
+, // c29a
+  // c29b
+repeat
+    // c30
+OrderACK , // c32a
+  // c32b
+match // c33
+KType as // c35a
+  // c35b
+Body // c36
+{
+    // c37
+1 :
+    // c39
+HTTPServerInfo , 2 // c42
+:
+    // c43
+OrderACK
+    // c44
+, } // c46a
+  // c46b
+,
+    // c47
+} // c48a
+  // c48b
 ")).
-Eval vm_compute in ("<<<M292>>>" ++ check (runes_of_ascii "packet/// triple
-matchKey { float32 float,@calculatedFrom(""a\\""// " ++ [27880; 37322]%N ++ runes_of_ascii "
-) @rightPad
-( '\x00' )i16 tag  @calculatedFrom(""abc"" ) ,
-repeat zchar[255
-] pack
-    , @lengthOf( Z9_ ) tag , } // trailing space 
-root
-packet rootA { repeat metadata { Logon , }, @tag( 10)
-@lengthOf( A )
-@tag( 007)
-u32
-    options1, match float as u {0123456789 : u8x ,} ,	}// " ++ [27880; 37322]%N ++ runes_of_ascii "
-root packet lengthOf { }
-")).
-Eval vm_compute in ("<<<M1590>>>" ++ check (runes_of_ascii "options {
-    T = zchar[42]
-    options1 = uint8;
-    lengthOf = char[4294967296];
+Eval vm_compute in ("<<<M1409>>>" ++ check (runes_of_ascii "root packet asx {
+    @rightPad(' ')
+    @lengthOf(int)
+    @tag(0)
+    u64 uint8x @calculatedFrom(""packet""),
+    uint32 i64_,
+    // c
+    repeat options1 o,
+    match f32a as falsey {
+        42 : stringy,
+        10 : As,
+        """" : Packet,
+    },
+    @calculatedFrom(""it's"")
+    // " ++ [128512]%N ++ runes_of_ascii " emoji
+    f64 a1,
+    @lengthOf(tag)
+    match roots as MetaDataX {
+        """ ++ [128512]%N ++ runes_of_ascii """ : f32a,
+        ""\n"" : As,
+        [255] : A,
+    },
+    a1 @calculatedFrom(""abc"") ``,
+    @rightPad()
+    @rightPad('\x00')
+    @calculatedFrom(""CRC32"")
+    body As,
 }
 
-packet Z9_ {
-    repeat MetaDataX `crlf
-    line`,
-    repeat string x_y_z,
-    u32 x,// `tick` ""quote"" 'q'
-    @tag(00)
-    repeat i64 Logon,
-    u8x f32a,
-    repeat lengthOf ``,
-    repeat stringy Pad `
-    `,
-    repeat string_ chars `// not a comment`,
+root packet packetx {
+    //x
+    //
+    repeat lengthOf Logon `" ++ [28040; 24687; 31867; 22411]%N ++ runes_of_ascii "`,//	t
 }")).
-Eval vm_compute in ("<<<M368>>>" ++ check (runes_of_ascii "MetaData T
+Eval vm_compute in ("<<<M1339>>>" ++ check (runes_of_ascii "  options
+
+{ ArrayPrefixLenType
+
+    =  u64
+;FixedStringPadFromLeft
+	=true
+
+;
+    FixedStringPadChar  = '0'
+
+;
+
+}
+
+packet
+Quote{	} 
+packet  Ack
+
+    { repeat 
+InNote66
     {
-uint8
-float ,
-repeatCount x ,	char[ 10  ] asx /// triple
-, char[ 00]
-metadata
-    `" ++ [233]%N ++ runes_of_ascii "` ,u8x asx//	t
-, } MetaData
-    trueish {	charz	string_ `crlf
-line`,  zchar[ 42 ]	_x
-//
-// `tick` ""quote"" 'q'
-, }packet o { char[]u8x
-    @calculatedFrom(""abc""  ) , } options{ x
-=
-    255 ; u // " ++ [27880; 37322]%N ++ runes_of_ascii "
-= '0'	}
-")).
-Eval vm_compute in ("<<<M89>>>" ++ check (runes_of_ascii "packet Foo // " ++ [128512]%N ++ runes_of_ascii " emoji
-{@lengthOf( f32a )
-char[
-0123456789 //	t
-] float `u8 x,` ,}
-    packet // a // b
-i64_ {@lengthOf(stringy // packet A { u8 x, }
-)
-    char[] int @calculatedFrom(""{,}"" ) ,@tag(
-007 ) //
-int64
-stringy`" ++ [233]%N ++ runes_of_ascii "` ,  char[]A @calculatedFrom(
-""\" ++ [233]%N ++ runes_of_ascii """
-    )	`doc` ,// " ++ [27880; 37322]%N ++ runes_of_ascii "
-}
-")).
-Eval vm_compute in ("<<<M202>>>" ++ check (runes_of_ascii "packet Z9_
-    { @calculatedFrom( ""packet"") char //
-BodyLength , match chars as falsey {[65535,
-    // c
-    """ ++ [128512]%N ++ runes_of_ascii """ ,""" ++ [28040; 24687]%N ++ runes_of_ascii """ , ""`tick`""  , 10,
-    ""a\\"" ,""a\""b"" // @lengthOf(
-]: repeatCount , ""x y"" :chars , // " ++ [128512]%N ++ runes_of_ascii " emoji
-65535
-://x
-calculatedFrom , } , }
-")).
-Eval vm_compute in ("<<<M364>>>" ++ check (runes_of_ascii "packet  _x
-{ repeat char[] matchKey// " ++ [128512]%N ++ runes_of_ascii " emoji
-, @leftPad( ) x_y_z/// triple
-T , Pad
-{ zchar[ 1] rootA `tab	here`
-,},Foo
-    @calculatedFrom(
-    """"
-    // trailing space 
-    ),
-}	packet MetaDataX {
-float64 body, }
-")).
-Eval vm_compute in ("<<<M169>>>" ++ check (runes_of_ascii "root packet
-    // `tick` ""quote"" 'q'
-    string_ { repeat
-char[00]  rootA
+    u8 
+pad0  ,
+    }
     ,
-// " ++ [128512]%N ++ runes_of_ascii " emoji
-// " ++ [27880; 37322]%N ++ runes_of_ascii "
-}
-    MetaData u {i32 options1,
-}MetaData
-rootA
+    }	packet 
+Reject 
 {
-u16  chars	,
-/// triple
-//x
+}root
+    packet
+    Order{Quote
+
+    ,repeat
+	Reject 
+, string
+    venue
+
+    ,
+
+    string
+
+seqNo , 
+uint32
+
+    Ref , 
+u16 lastPx  ,
+u32 
+clOrdID 
+@lengthOf(  Body  ) 
+,
+match
+lastPx as	Body{
+    190 
+:Reject
+
+    ,
+186:Quote
+    ,
+	22
+:	Ack
+,
 }
-")).
-Eval vm_compute in ("<<<M336>>>" ++ check (runes_of_ascii "
-packet msg_type
+,
+    u16  Flags @calculatedFrom(
+
+""CRC32""
+	)
+
+    , }")).
+Eval vm_compute in ("<<<M1874>>>" ++ check (runes_of_ascii "options {
+	LittleEndian
+=
+	true
+	;
+
+    StringPrefixLenType =	u64  ; ArrayPrefixLenType
+
+= 
+u16
+
+; 
+FixedStringPadFromLeft	=	false
+
+; 
+FixedStringPadChar
+
+=  ' '; 
+}
+packet
+Logon{zchar[
+5
+
+    ] Side2 
+,
+}
+    root	packet  Logout
 {
-    zchar[ 65535
-    /// triple
-    ]stringy // `tick` ""quote"" 'q'
-@calculatedFrom( """ ++ [233]%N ++ runes_of_ascii "t" ++ [233]%N ++ runes_of_ascii """ )
-,@tag( 0
-) repeat i64_,
+
+    repeat
+i64
+Tail
+
+    ,
+	Logon
+    ,
+	repeat
+
+i16
+
+    OrderId,
+
+    char[]venue
+,
+	uint64
+
+    x, 
+repeat
+i16
+
+count	,
+
+    u8
+
+Flags,match Flags
+as
+Body {
+25
+: Logon
+
+    ,
 }
-// packet A { u8 x, }
+, u16
+	Qty @calculatedFrom(
+    ""CR\
+C32""
+	)	,
+
+    }")).
+Eval vm_compute in ("<<<M161>>>" ++ check (runes_of_ascii "packet rootA{ options1 _x , u64
+    Header , } packet lengthOf {
+    @rightPad ( ' '	)
+@lengthOf( u128 // trailing space 
+)	@calculatedFrom(	""a\""b"" )  A {string i64_	`it's`,
+//	t
+// trailing space 
+uint8
+body
+, match pack as u {
+// @lengthOf(
+// trailing space 
+00 : charz , 00: int ,3
+: falsey 255 :body
+    ,
+[0123456789 ] :x_y_z ,
+// a // b
+//
+}
+,
+} ,
+} MetaData chars{ u128
+    zchar , char[ 42  ]
+// a // b
+// a // b
+metadata
+    , }
 ")).
+Eval vm_compute in ("<<<M1858>>>" ++ check (runes_of_ascii "packet metadata {
+    //	t
+    float64 body @lengthOf(calculatedFrom),// a // b
+    @tag(42)
+    rootA,
+    x_y_z u8x `// not a comment`,
+    @lengthOf(Pad)
+    match packetx as leftPad {
+        //
+        65535 : tag,
+        """ ++ [128512]%N ++ runes_of_ascii """ : _x,
+    },
+    x_y_z metadata,
+    @tag(7)
+    int64 zchar @lengthOf(repeatCount) `" ++ [233]%N ++ runes_of_ascii "`,
+    @tag(0123456789)
+    repeat float chars,
+    f32 MetaDataX,
+}")).
+Eval vm_compute in ("<<<M1674>>>" ++ check (runes_of_ascii "
+// top
+
+MetaData // c0
+  	leftPad // c1
+  { // c2
+chars	// c3
+	MetaDataX  // c4
+	,  // c5
+  }	// c6
+      packet	// c7
+	repeatCount  // c8
+	{  // c9
+char[ 	 // c10
+	255 	 // c11
+	] // c12
+      uint8x  // c13
+    `" ++ [233]%N ++ runes_of_ascii "` // c14
+	, // c15
+
+} // c16
+    	MetaData// c17
+	  pack	// c18
+  { 	 // c19
+    As	// c20
+  Foo // c21
+
+,	// c22
+    }// c23")).
+Eval vm_compute in ("<<<M1919>>>" ++ check (runes_of_ascii "  packet
+    A
+{ u8 a	,  }
+
+packet
+
+    B
+{
+    u16
+	b  ,
+
+}
+packet
+
+    C {
+u32
+    c
+
+    ,
+}root 
+packet
+
+M
+	{ u16 
+Kc
+
+    ,
+u16
+    Kb
+
+, u16 Ka,
+match 
+Kc
+
+as
+X 
+{ 9 : A  ,
+10 :B
+	,
+}
+	, match Kb  as Y 
+{ 
+2:
+	C
+
+,
+	1 
+:A
+,
+} ,
+match
+    Ka	as
+
+    Z{
+1
+:	B
+
+,  } , 
+A
+
+, 
+B ,
+
+    C , }
+
+")).
+Eval vm_compute in ("<<<M1559>>>" ++ check (runes_of_ascii "
+root 	 // trailing space 
+packet
+	int {
+    f32a
+	@calculatedFrom( ""packet""
+
+)
+
+`
+`
+
+    ,	}
+
+    options
+{
+	rootA
+// @lengthOf(
+	= ""\" ++ [233]%N ++ runes_of_ascii """ ;
+    }packet i8i8
+    {
+	// trailing space 
+uint8
+uint8x @lengthOf(
+    string_	)//	t
+    ,
+i32  tag //	t
+@lengthOf(
+	Logon 
+),
+    }")).
+Eval vm_compute in ("<<<M1253>>>" ++ check (runes_of_ascii "// top
+packet // c0
+Inner // c1
+{ // c2
+u8 // c3a
+  // c3b
+a // c4
+,
+    // c5
+} // c6
+root // c7
+packet // c8a
+  // c8b
+P // c9
+{ // c10a
+  // c10b
+repeat // c11a
+  // c11b
+Inner items // c13
+, // c14
+u8
+    // c15
+x , // c17a
+  // c17b
+} // c18
+")).
+Eval vm_compute in ("<<<M1569>>>" ++ check (runes_of_ascii "
+// top
+	  root  // c0
+	packet 
+P 	 // c2
+  {  // c3
+	  hdr
+// c4
+{ 
+    // c5
+		u8	// c6
+  a  // c7a
+// c7b
+    ,  
+      // c8
+}
+    , 	 // c10
+  u8// c11
+    	x // c12a
+		// c12b
+
+,
+
+} 
+        // c14")).
+Eval vm_compute in ("<<<M121>>>" ++ check (runes_of_ascii "packet u128 { @calculatedFrom(  ""a	b"" ) // packet A { u8 x, }
+@leftPad( ' '
+) //	t
+@lengthOf(
+Header // packet A { u8 x, }
+) char[10
+    ] crc@lengthOf(
+len ) , } MetaData i8i8 { }
+")).
+Eval vm_compute in ("<<<M1416>>>" ++ check (runes_of_ascii "// top
+MetaData leftPad {
+    chars MetaDataX,
+}
+
+// c6
+packet repeatCount {
+    // c9
+    char[255] uint8x `" ++ [233]%N ++ runes_of_ascii "`,// c15
+}// c16
+
+MetaData pack {
+    As Foo,
+}// c23")).
 Eval vm_compute in ("<<<M195>>>" ++ check (runes_of_ascii "MetaData msg_type {} root packet
 A{ repeat i32 leftPad
 `it's`
@@ -918,36 +1038,18 @@ A{ repeat i32 leftPad
     255 ]
     falsey // @lengthOf(
 , }")).
-Eval vm_compute in ("<<<M1675>>>" ++ check (runes_of_ascii "
-packet A
-    { match
+Eval vm_compute in ("<<<M150>>>" ++ check (runes_of_ascii "packet
+    //	t
+    Logon {
+metadata
+@calculatedFrom( ""a\\"" ) , @tag( 42 ) // " ++ [128512]%N ++ runes_of_ascii " emoji
+@tag(	65535 )
+repeat u16 o `line1
+line2` ,
+} packet float { }
 
-    k
-    as  n	{ [
-
-""a""
-
-,  ""bb""	,007,
-	""d""
-
-, ""e""
-
-, 66  , 
-""g"" 
-, ""h""
-
-    , 
-9
-
-,
-""j""  ,""k""
-    ] :
-    B 2
-
-:	C  }
-, }
 ")).
-Eval vm_compute in ("<<<M482>>>" ++ check (runes_of_ascii "packet uint8x
+Eval vm_compute in ("<<<M547>>>" ++ check (runes_of_ascii "%packet uint8x
 { match pack
     as msg_type	{
     0123456789 :	float
@@ -955,10 +1057,10 @@ Eval vm_compute in ("<<<M482>>>" ++ check (runes_of_ascii "packet uint8x
 ,
 } packet //	t
 a1
-    { } { options packetx
+    { } options {packetx
     = '\x00'	; u128= ""a	b""  ; }
 ")).
-Eval vm_compute in ("<<<M477>>>" ++ check (runes_of_ascii "packet uint8x
+Eval vm_compute in ("<<<M498>>>" ++ check (runes_of_ascii "packet uint8x
 { match pack
     as msg_type	{
     0123456789 :	float
@@ -966,263 +1068,255 @@ Eval vm_compute in ("<<<M477>>>" ++ check (runes_of_ascii "packet uint8x
 ,
 } packet //	t
 a1
-    { options } {packetx
-    = '\x00'	; u128= ""a	b""  ; }
+    { } options {packetx
+    ; '\x00'	; u128= ""a	b""  ; }
 ")).
-Eval vm_compute in ("<<<M702>>>" ++ check (runes_of_ascii "// @lengthOf(
-packet i8i8 { u128 o , }
+Eval vm_compute in ("<<<M272>>>" ++ check (runes_of_ascii "packet _x	{ } packet BodyLength { int64
+Packet
+@lengthOf( float ),
+options1 /// triple
+{rootA x	, u8
+Packet @calculatedFrom( """ ++ [28040; 24687]%N ++ runes_of_ascii """) `it's`  ,
+} , }")).
+Eval vm_compute in ("<<<M674>>>" ++ check (runes_of_ascii "// @lengthOf(
+packet i8i8 { { u128 o , }
 options { MetaDataX = true;
     BodyLength =""packet"" x_y_z= 007
 crc //x
-= ""abc"" ""abc"" ;
+= ""abc"" ;
     msg_type =
 i16 }")).
-Eval vm_compute in ("<<<M405>>>" ++ check (runes_of_ascii "packet uint8x
-{  pack
-    as msg_type	{
-    0123456789 :	float
-}
-,
-} packet //	t
-a1
-    { } options {packetx
-    = '\x00'	; u128= ""a	b""  ; }
-")).
-Eval vm_compute in ("<<<M423>>>" ++ check (runes_of_ascii "packet uint8x
-{ match pack
-    as ,	{
-    0123456789 :	float
-}
-,
-} packet //	t
-a1
-    { } options {packetx
-    = '\x00'	; u128= ""a	b""  ; }
-")).
-Eval vm_compute in ("<<<M1574>>>" ++ check (runes_of_ascii "
-
-  MetaData 
-leftPad {chars
-MetaDataX , 
-}
-
-packet repeatCount
-	{ char[
-
-    255]	uint8x `" ++ [233]%N ++ runes_of_ascii "`
-    ,}
-MetaData  // c
-  pack
-
-{  As
-Foo
-,} ")).
-Eval vm_compute in ("<<<M519>>>" ++ check (runes_of_ascii "packet uint8x
-{ match pack
-    as msg_type	{
-    0123456789 :	float
-}
-,
-} packet //	t
-a1
-    { } options {packetx
-    = '\x00'	; u128")).
-Eval vm_compute in ("<<<M1864>>>" ++ check (runes_of_ascii "
-packet 
-A {
-    match
-k as n
-{
-[
-    ""a""	, ""bb""	,
-	007	,
-""d"" ,
-    ""e""  ,	66, ""g""
-,
-    ""h"" 
-,
-
-9 ]
-:B  ,
-2
-
-: C
-    } 
-,
-
-}
-")).
-Eval vm_compute in ("<<<M1757>>>" ++ check (runes_of_ascii "packet
-
-A
-
-{match
-
-k  as n
-    {	[ 1,
-22
-	,  ""c c""
-,
-4  ,
-    5 ,
-	""f"",
-
-    7	, 
-8
-, ""i""]  :  B
-2	:
-    C  }
-
-, 
-}
-")).
-Eval vm_compute in ("<<<M1166>>>" ++ check (runes_of_ascii "MetaData leftPad { chars MetaDataX , } packet repeatCount { char[ 255
-// c
-] uint8x `" ++ [233]%N ++ runes_of_ascii "` , } MetaData pack { As Foo , }")).
-Eval vm_compute in ("<<<M907>>>" ++ check (runes_of_ascii "packet A {
-  match k as n {
-    [""a"", ""bb"", ""c c"", ""d"", ""e"", ""f"", ""g"", ""h"", ""i"", ""j"", ""k"", ""l""] : B
-    2 : C
-  },
+Eval vm_compute in ("<<<M675>>>" ++ check (runes_of_ascii "// @lengthOf(
+packet i8i8 { u128 o , }
+options { MetaDataX true =;
+    BodyLength =""packet"" x_y_z= 007
+crc //x
+= ""abc"" ;
+    msg_type =
+i16 }")).
+Eval vm_compute in ("<<<M1500>>>" ++ check (runes_of_ascii "packet A {
+    Inner {
+        u8 x `x
+                `,
+        Deep {
+            u8 y `x
+                        `,
+        },
+    },
 }")).
-Eval vm_compute in ("<<<M880>>>" ++ check (runes_of_ascii "packet A {
-  match k as n {
-    [""a"", ""bb"", ""c c"", ""d"", ""e"", ""f"", ""g"", ""h"", ""i"", ""j""] : B,
-    2 : C
-  },
-}")).
-Eval vm_compute in ("<<<M1460>>>" ++ check (runes_of_ascii "MetaData chars {
-    x_y_z x `line1
-        line2`,
-    _x A `// not a comment`,
-}// `tick` ""quote"" 'q'")).
-Eval vm_compute in ("<<<M479>>>" ++ check (runes_of_ascii "packet uint8x
-{ match pack
-    as msg_type	{
-    0123456789 :	float
+Eval vm_compute in ("<<<M1837>>>" ++ check (runes_of_ascii "packet u128 {
+    @calculatedFrom(""a	b"")
+    @leftPad(' ')
+    @lengthOf(Header)
+    char[10] crc @lengthOf(len),
 }
-,
-} packet //	t
-a1
-    {")).
-Eval vm_compute in ("<<<M872>>>" ++ check (runes_of_ascii "packet A {
-  match k as n {
-    [""a"", 22, ""c c"", 4, ""e"", 66, ""g"", 8, ""i""] : B
-    2 : C
-  },
-}")).
-Eval vm_compute in ("<<<M618>>>" ++ check (runes_of_ascii "
-packet
-    asx {match u128 as lengthOf
-{
-//	t
-// `tick` ""quote"" 'q'
-255 : x ,
-    } , ,	}")).
-Eval vm_compute in ("<<<M584>>>" ++ check (runes_of_ascii "
-packet
-    asx {match u128 as {
-lengthOf
-//	t
-// `tick` ""quote"" 'q'
-255 : x ,
-    } ,	}")).
-Eval vm_compute in ("<<<M845>>>" ++ check (runes_of_ascii "packet A {
-  match k as n {
-    [""a"", 22, ""c c"", 4, ""e"", 66, ""g""] : B,
-    2 : C
-  },
-}")).
-Eval vm_compute in ("<<<M843>>>" ++ check (runes_of_ascii "packet A {
-  match k as n {
-    [1, ""bb"", 007, ""d"", 5, ""f"", 7] : B,
-    2 : C
-  },
-}")).
-Eval vm_compute in ("<<<M1094>>>" ++ check (runes_of_ascii "packet A { u16 // a
- len // b
- @lengthOf( // c
- body // d
- ) // e
- `d` // f
- , }")).
-Eval vm_compute in ("<<<M903>>>" ++ check (runes_of_ascii "packet A { Inner { match k as n { [1,22,007,4,5,66,7,8,9,10,11] : B, }, }, }")).
-Eval vm_compute in ("<<<M91>>>" ++ check (runes_of_ascii "packet
-roots{ }	MetaData
-    metadata{
-asx matchKey ,
-uint64
-rootA , }")).
-Eval vm_compute in ("<<<M1087>>>" ++ check (runes_of_ascii "packet A { match k as n { [ // a
- 1 // b
- , // c
- 2 ] // d
- : B }, }")).
-Eval vm_compute in ("<<<M1667>>>" ++ check (runes_of_ascii "
 
-  packet	body	{ i32
-f32a`{ , }`
-    , // c
+MetaData i8i8 {
+}")).
+Eval vm_compute in ("<<<M1844>>>" ++ check (runes_of_ascii "packet B
 
-} options
+{u8
+a
+,	}root packet
+
+    P
+
     {
-} ")).
-Eval vm_compute in ("<<<M954>>>" ++ check (runes_of_ascii "packet A {
-    B b `
-x`,
-    B `
-x`,
-    repeat B bs `
-x`,
-}")).
-Eval vm_compute in ("<<<M764>>>" ++ check (runes_of_ascii "float32 true uint8 f32 i64 i32 @leftPad ) char[ } uint8")).
-Eval vm_compute in ("<<<M1208>>>" ++ check (runes_of_ascii "packet body { i32 f32a
-// c
-`{ , }` , } options { }")).
-Eval vm_compute in ("<<<M347>>>" ++ check (runes_of_ascii "packet As{
-/// triple
-// packet A { u8 x, }
+	u8 K ,u8  L@lengthOf( Body
+) ,match K as  Body {1
+	:
+
+B,
 }
 
+    ,	}
+
 ")).
-Eval vm_compute in ("<<<M596>>>" ++ check (runes_of_ascii "
+Eval vm_compute in ("<<<M1150>>>" ++ check (runes_of_ascii "MetaData leftPad { chars
+// c
+MetaDataX , } packet repeatCount { char[ 255 ] uint8x `" ++ [233]%N ++ runes_of_ascii "` , } MetaData pack { As Foo , }")).
+Eval vm_compute in ("<<<M1182>>>" ++ check (runes_of_ascii "MetaData leftPad { chars MetaDataX , } packet repeatCount { char[ 255 ] uint8x `" ++ [233]%N ++ runes_of_ascii "` , } MetaData pack {
+// c
+As Foo , }")).
+Eval vm_compute in ("<<<M1463>>>" ++ check (runes_of_ascii "  root
+
+packet
+    Z9_ {
+
+repeat
+lengthOf
+pack
+,
+    repeat
+
+    A
+
+{
+
+    repeatCount 
+`doc` ,
+    } 
+,} ")).
+Eval vm_compute in ("<<<M955>>>" ++ check (runes_of_ascii "packet A {
+    u16 len @lengthOf(body) `
+x`,
+    u32 crc @calculatedFrom(""CRC32"") `
+x`,
+    string body,
+}")).
+Eval vm_compute in ("<<<M1675>>>" ++ check (runes_of_ascii "  packet 
+A{	match
+
+k
+	as n { [
+
+1
+,
+
+    ""bb"",007
+    ,
+	""d""
+]
+    :	B
+,
+2 :
+
+    C	}
+    , }
+")).
+Eval vm_compute in ("<<<M854>>>" ++ check (runes_of_ascii "packet A {
+  match k as n {
+    [""a"", ""bb"", ""c c"", ""d"", ""e"", ""f"", ""g"", ""h""] : B,
+    2 : C
+  },
+}")).
+Eval vm_compute in ("<<<M593>>>" ++ check (runes_of_ascii "
 packet
     asx {match u128 as lengthOf
-{")).
-Eval vm_compute in ("<<<M708>>>" ++ check (runes_of_ascii "// @lengthOf(
-packet i8i8 { u128 o ,")).
-Eval vm_compute in ("<<<M1620>>>" ++ check (runes_of_ascii "
-
-  // c
-
-  MetaData
-tag 
-{ }
-")).
-Eval vm_compute in ("<<<M1053>>>" ++ check (runes_of_ascii "packet A {
- u8 x `d" ++ [65279]%N ++ runes_of_ascii "`, // c" ++ [65279]%N ++ runes_of_ascii "
-}")).
-Eval vm_compute in ("<<<M1472>>>" ++ check (runes_of_ascii "
+{
+//	t
+// `tick` ""quote"" 'q'
+255 255 : x ,
+    } ,	}")).
+Eval vm_compute in ("<<<M639>>>" ++ check (runes_of_ascii "
 packet
-
-A {
-} 
-  // c" ++ [8239]%N ++ runes_of_ascii "
- 
-")).
-Eval vm_compute in ("<<<M1507>>>" ++ check (runes_of_ascii "
-packet A 
-{ }// c" ++ [8239]%N ++ runes_of_ascii "
-")).
-Eval vm_compute in ("<<<M22>>>" ++ check (runes_of_ascii "packet leftPad {
+    asx {match u128 as lengthOf
+{
+//	t
+// `tick` ""quote"" 'q'
+255 : x ,
+    } ,	"" }")).
+Eval vm_compute in ("<<<M614>>>" ++ check (runes_of_ascii "
+packet
+    asx {match u128 as lengthOf
+{
+//	t
+// `tick` ""quote"" 'q'
+255 : x ,
+    , }	}")).
+Eval vm_compute in ("<<<M1307>>>" ++ check (runes_of_ascii "  packet
+orderItem 
+{
+	u8
+    a
+    , 
+}root
+packet
+newOrder{ orderItem	, 
+u8
+x
+	,
 }")).
-Eval vm_compute in ("<<<M1006>>>" ++ check (runes_of_ascii "packet A {
+Eval vm_compute in ("<<<M1556>>>" ++ check (runes_of_ascii "packet A {
+    B b `tab
+    	x`,
+    B `tab
+    	x`,
+    repeat B bs `tab
+    	x`,
+}")).
+Eval vm_compute in ("<<<M1656>>>" ++ check (runes_of_ascii "  options  {
+    calculatedFrom=
+
+""abc""
+
+    ; float= i16} // trailing space 
+")).
+Eval vm_compute in ("<<<M1566>>>" ++ check (runes_of_ascii "packet A {
+    match k as n {
+        [22, ""a""] : B,
+        2 : C,
+    },
+}")).
+Eval vm_compute in ("<<<M805>>>" ++ check (runes_of_ascii "packet A {
+  match k as n {
+    [1, ""bb"", 007, ""d""] : B
+    2 : C
+  },
+}")).
+Eval vm_compute in ("<<<M864>>>" ++ check (runes_of_ascii "packet A { Inner { match k as n { [1,22,007,4,5,66,7,8] : B, }, }, }")).
+Eval vm_compute in ("<<<M246>>>" ++ check (runes_of_ascii "MetaData x {x Packet
+,i32 lengthOf
+, // `tick` ""quote"" 'q'
 }
-// c" ++ [8202]%N)).
-Eval vm_compute in ("<<<M571>>>" ++ check (runes_of_ascii "
+")).
+Eval vm_compute in ("<<<M1864>>>" ++ check (runes_of_ascii "
 packet
-    asx {")).
-Eval vm_compute in ("<<<M1379>>>" ++ check (runes_of_ascii "MetaData tag {
+	body	// c
+	{
+i32
+
+f32a
+`{ , }`,
+	} options  { }
+")).
+Eval vm_compute in ("<<<M627>>>" ++ check (runes_of_ascii "
+packet
+    asx {match u128 as lengthOf
+{
+//	t
+// `t")).
+Eval vm_compute in ("<<<M1216>>>" ++ check (runes_of_ascii "packet body { i32 f32a `{ , }` , } options
+// c
+{ }")).
+Eval vm_compute in ("<<<M434>>>" ++ check (runes_of_ascii "packet uint8x
+{ match pack
+    as msg_type	{")).
+Eval vm_compute in ("<<<M1452>>>" ++ check (runes_of_ascii "  root  packet  P {
+char	c ,u8 x
+	, 
+}
+
+")).
+Eval vm_compute in ("<<<M50>>>" ++ check (runes_of_ascii "options {
+    Packet =  char[]  }
+")).
+Eval vm_compute in ("<<<M1768>>>" ++ check (runes_of_ascii "packet A {
+    u8 x `d `,// c 
 }")).
-Eval vm_compute in ("<<<M741>>>" ++ check ([65533; 65533]%N ++ runes_of_ascii "1" ++ [65533]%N ++ runes_of_ascii "dcV")).
-Eval vm_compute in ("<<<M746>>>" ++ check (runes_of_ascii "UXk")).
+Eval vm_compute in ("<<<M923>>>" ++ check (runes_of_ascii "packet A {
+    u8 x `a
+b`,
+}")).
+Eval vm_compute in ("<<<M1923>>>" ++ check (runes_of_ascii "
+
+  packet MetaDataX 
+{	}")).
+Eval vm_compute in ("<<<M295>>>" ++ check (runes_of_ascii "root  packet
+u128 { }")).
+Eval vm_compute in ("<<<M1130>>>" ++ check (runes_of_ascii "MetaData // c
+u { }")).
+Eval vm_compute in ("<<<M1022>>>" ++ check (runes_of_ascii "// c" ++ [8239]%N ++ runes_of_ascii "
+packet A {
+}")).
+Eval vm_compute in ("<<<M999>>>" ++ check (runes_of_ascii "packet A {
+}// c" ++ [8192]%N)).
+Eval vm_compute in ("<<<M1071>>>" ++ check (runes_of_ascii "packet A {
+}
+
+
+")).
+Eval vm_compute in ("<<<M84>>>" ++ check (runes_of_ascii " // " ++ [27880; 37322]%N)).
+Eval vm_compute in ("<<<M111>>>" ++ check (runes_of_ascii "
+
+")).
